@@ -275,6 +275,111 @@ example : IsSetOf (dedup ["a".toList, "b".toList, "a".toList]).reverse ["a".toLi
     (["a".toList, "b".toList, "a".toList] : List Str).Perm ["b".toList, "a".toList, "a".toList] :=
   ⟨isSetOf_of_perm (dedup_isSetOf _) (reverse_perm _), dedup_isSetOf _, by decide, Perm.swap _ _ _⟩
 
+/-- **S1 for any total order** (`sorted()` over tuples such as `imp.Import`, numbers, …): a sort by a
+transitive, total, antisymmetric comparison does not see the iteration order. -/
+theorem sort_total_order_perm_invariant {α : Type} (le : α → α → Bool)
+    (trans : ∀ a b c, le a b = true → le b c = true → le a c = true)
+    (total : ∀ a b, (le a b || le b a) = true)
+    (antisymm : ∀ a b, le a b = true → le b a = true → a = b)
+    (xs ys : List α) (h : xs.Perm ys) : xs.mergeSort le = ys.mergeSort le := by
+  apply Perm.eq_of_pairwise (le := fun a b => le a b = true)
+  · intro a b _ _ hab hba
+    exact antisymm a b hab hba
+  · exact pairwise_mergeSort trans total xs
+  · exact pairwise_mergeSort trans total ys
+  · exact (mergeSort_perm xs le).trans (h.trans (mergeSort_perm ys le).symm)
+
+example : (∀ a b c : Nat, decide (a ≤ b) = true → decide (b ≤ c) = true → decide (a ≤ c) = true) ∧
+    (∀ a b : Nat, (decide (a ≤ b) || decide (b ≤ a)) = true) ∧
+    (∀ a b : Nat, decide (a ≤ b) = true → decide (b ≤ a) = true → a = b) ∧ ([2, 1, 3] : List Nat).Perm [3, 2, 1] := by
+  refine ⟨?_, ?_, ?_, ?_⟩
+  · intro a b c h1 h2; simp at *; omega
+  · intro a b; simp; omega
+  · intro a b h1 h2; simp at *; omega
+  · decide
+
+/-- **Sub-packages (S1 instance)**: the keys of `API.subpackages` — and with them the order in which
+`_render_template` appends the sub-packages' files to the response — are the same for every
+iteration order of the set of sub-package names. -/
+theorem subpackages_order_free (names s t : List Str) (hs : IsSetOf s names) (ht : IsSetOf t names) :
+    subpackageOrder s = subpackageOrder t :=
+  sorted_perm_invariant s t (isSetOf_perm_of_perm hs ht (Perm.refl _))
+
+/-- … hence so is the `%sub` walk of every template -/
+theorem sub_walk_order_free (names s t : List Str) (filesOf : Str → List Str) (own : List Str)
+    (hs : IsSetOf s names) (ht : IsSetOf t names) :
+    subWalk (subpackageOrder s) filesOf own = subWalk (subpackageOrder t) filesOf own := by
+  rw [subpackages_order_free names s t hs ht]
+
+example : IsSetOf (dedup [['b'], ['a'], ['c'], ['a']]).reverse [['b'], ['a'], ['c'], ['a']] ∧
+    IsSetOf (dedup [['b'], ['a'], ['c'], ['a']]) [['b'], ['a'], ['c'], ['a']] ∧
+    (dedup [['b'], ['a'], ['c'], ['a']]).reverse ≠ dedup [['b'], ['a'], ['c'], ['a']] :=
+  ⟨isSetOf_of_perm (dedup_isSetOf _) (reverse_perm _), dedup_isSetOf _, by decide⟩
+
+/-- the hypothesis-free reading on the executable model: two proto orders give the same keys -/
+theorem subpackage_names_perm_invariant (view : List Str) (subs subs' : List (List Str)) (h : subs.Perm subs') :
+    subpackageOrder (dedup (subpackageNames view subs)) = subpackageOrder (dedup (subpackageNames view subs')) :=
+  sorted_perm_invariant _ _ (isSetOf_perm_of_perm (dedup_isSetOf _) (dedup_isSetOf _) (h.filterMap _))
+
+/-! ## S5: ordered inputs — OAuth scopes keep their declaration order -/
+
+section Aux
+
+theorem splitOn_nosep (sep : Char) (s : Str) (h : sep ∉ s) : Model.Determinism.splitOn sep s = [s] := by
+  induction s with
+  | nil => rfl
+  | cons c s ih =>
+    have hc : c ≠ sep := fun e => h (by simp [e])
+    have hs : sep ∉ s := fun e => h (by simp [e])
+    simp [Model.Determinism.splitOn, hc, ih hs]
+
+theorem splitOn_append_sep (sep : Char) (s rest : Str) (h : sep ∉ s) :
+    Model.Determinism.splitOn sep (s ++ sep :: rest) = s :: Model.Determinism.splitOn sep rest := by
+  induction s with
+  | nil => simp [Model.Determinism.splitOn]
+  | cons c s ih =>
+    have hc : c ≠ sep := fun e => h (by simp [e])
+    have hs : sep ∉ s := fun e => h (by simp [e])
+    simp [Model.Determinism.splitOn, hc, ih hs]
+
+theorem splitOn_joinWith (sep : Char) (xs : List Str) (hne : xs ≠ []) (h : ∀ s ∈ xs, sep ∉ s) :
+    Model.Determinism.splitOn sep (joinWith sep xs) = xs := by
+  induction xs with
+  | nil => exact absurd rfl hne
+  | cons x xs ih =>
+    cases xs with
+    | nil => simpa [joinWith] using splitOn_nosep sep x (h x (by simp))
+    | cons y ys =>
+      simp only [joinWith]
+      rw [splitOn_append_sep sep x _ (h x (by simp))]
+      rw [ih (by simp) (fun s hs => h s (by simp [hs]))]
+
+end Aux
+
+/-- **OAuth scopes**: `Service.oauth_scopes` returns the scopes of the option in declaration
+order, with duplicates kept — a function of the (ordered) option string, no set involved. -/
+theorem oauth_scopes_keep_declaration_order (isSpace : Char → Bool) (scopes : List Str)
+    (h : ∀ s ∈ scopes, s ≠ [] ∧ ',' ∉ s ∧ strip isSpace s = s) :
+    oauthScopes isSpace (joinWith ',' scopes) = scopes := by
+  unfold oauthScopes
+  cases scopes with
+  | nil => simp [joinWith, Model.Determinism.splitOn]
+  | cons x xs =>
+    rw [splitOn_joinWith ',' (x :: xs) (by simp) (fun s hs => (h s hs).2.1)]
+    have hf : (x :: xs).filter (fun i => !i.isEmpty) = x :: xs := by
+      apply filter_eq_self.mpr
+      intro a ha
+      have := (h a ha).1
+      cases a with
+      | nil => exact absurd rfl this
+      | cons _ _ => rfl
+    rw [hf]
+    calc (x :: xs).map (strip isSpace) = (x :: xs).map id := map_congr_left (fun a ha => (h a ha).2.2)
+      _ = x :: xs := by simp
+
+example : ∀ s ∈ ([['a', '/', 'x'], ['b'], ['a', '/', 'x']] : List Str),
+    s ≠ [] ∧ ',' ∉ s ∧ strip (fun c => c == ' ') s = s := by decide
+
 /-! ## S3: membership / size only -/
 
 theorem s3_mem_perm_invariant {α : Type} [DecidableEq α] (a : α) : PermInvariant (fun xs : List α => decide (a ∈ xs)) := by
